@@ -26,6 +26,20 @@ def make_plan(seed: int, tier: str, opts: dict) -> dict:
     for c in spec["conns"]:
         if r.random() < 0.4:
             c["window"] = r.randint(2, 4)
+    train = None
+    if r.random() < opts.get("trainable_p", 0.3):
+        # one trainable-delay connection: its window is extended by ceil(rate_out * (max - min)) entries, which the ring buffers must also hold
+        cands = [i for i, c in enumerate(spec["conns"]) if not c["blocking"] and c["jitter"] == "L"]
+        if cands:
+            ci = r.choice(cands)
+            c = spec["conns"][ci]
+            per_u = 1.0 / spec["nodes"][c["src"]]["rate"]
+            per = min(per_u, 1.0 / spec["nodes"][c["dst"]]["rate"])
+            dmin = round(per * r.choice([0.0, 0.1]), 6)
+            dmax = round(dmin + per_u * r.choice([0.6, 1.0, 1.4]), 6)
+            c["dist"] = ["train", dmin, dmax, dmin]
+            c["delay"] = round(min(per, dmin + 0.5 * (dmax - dmin)), 6)
+            train = dict(conn=ci, alpha=r.choice([0.0, 0.5, 1.0, round(r.random(), 3)]))
     n_eps = r.choice([1, 2, 3])
     eps = [driver.gen_episode(r, j, open_loop=spec["open_loop"], nsteps=r.randint(4, opts.get("max_steps", 10)), endings=("stop",), override_p=0.0, faults=False) for j in range(n_eps)]
     variants = []
@@ -34,7 +48,7 @@ def make_plan(seed: int, tier: str, opts: dict) -> dict:
                              starting_step=r.choice([0, 0, "mid"]), api=r.choice(["rollout_carry", "run_jit", "gym_jit"]), episode=r.randrange(n_eps)))
     for ep in eps:
         ep["until_active"] = True
-    return dict(spec=spec, seed=seed, episodes=eps, clock="sim", line_rate=0.0, variants=variants)
+    return dict(spec=spec, seed=seed, episodes=eps, clock="sim", line_rate=0.0, variants=variants, train=train)
 
 
 def run_plan(plan: dict, replay=None) -> dict:
@@ -99,7 +113,15 @@ def run_plan(plan: dict, replay=None) -> dict:
         s0 = 0 if var["starting_step"] == 0 else max(1, P // 2)
         if s0:
             tot["mid_starts"] += 1
-        cgs = compiled.init_state(G, ro.episodes[e].gs0, e, starting_step=s0)
+        inputs = None
+        if plan.get("train"):
+            cc_ = spec["conns"][plan["train"]["conn"]]
+            u_, v_ = names[cc_["src"]], names[cc_["dst"]]
+            gi = ro.episodes[e].gs0.inputs
+            i_ = gi[v_][u_]
+            inputs = gi.copy({v_: gi[v_].copy({u_: i_.replace(delay_dist=i_.delay_dist.replace(alpha=plan["train"]["alpha"]))})})
+            tot["trainable_instances"] = tot.get("trainable_instances", 0) + 1
+        cgs = compiled.init_state(G, ro.episodes[e].gs0, e, starting_step=s0, inputs=inputs)
         sizes = {n: int(jax.tree_util.tree_leaves(b)[0].shape[0]) for n, b in cgs.buffer.items()}
         # oracle B: static ring replay with the real buffer sizes
         rp, rstats = compiled.ring_replay(G, raw_np, nodes, positions, sizes=sizes, padded=True)
